@@ -28,7 +28,7 @@ TraceSigEv ==
                 Cl(~e.built, "C10.failed_signing_not_reported_as_built")
                 \cup Cl(e.built \/ e.is_signing_failure, "C10.signing_failure_identifiable")
                 \cup Cl(e.built \/ e.wraps_cause, "C10.signing_failure_wraps_signer_error")
-           ELSE IF Unusable(e) THEN {}
+           ELSE IF Unusable(e) /\ ~e.built THEN {}       \* (a key that cannot sign: refusing is fine; reporting success is not)
            ELSE IF ~e.built THEN {"C10.signed_package_built"}
            ELSE
              (CASE f = "deb" ->
